@@ -504,3 +504,208 @@ Proof.
     apply Forall_app. split; [exact Hfk|]. constructor; [exact Hnfree|].
     apply Forall_set_off; [intros l x Hl; exact Hl|exact Hfs].
 Qed.
+
+(* ====================================================================== *)
+(* 6. Q2 posting                                                           *)
+(* ====================================================================== *)
+Lemma next_id_fresh isput maxid leads reqs first :
+  queue_inv isput maxid leads reqs -> (leads <> [] -> Z.even maxid = isput) ->
+  Z.even first = isput -> 0 <= first ->
+  Z.even (next_id (Zlen leads) maxid first) = isput /\ 0 <= next_id (Zlen leads) maxid first /\
+  Forall (fun l => l_id l < next_id (Zlen leads) maxid first) leads.
+Proof.
+  intros Hq Hpar Hf H0. unfold next_id. destruct (Zlen leads =? 0) eqn:E.
+  - assert (leads = []) by (apply Zlen_zero_nil; lia). subst leads.
+    split; [exact Hf|]. split; [exact H0|constructor].
+  - destruct leads as [|l r]; [rewrite Zlen_nil in E; lia|].
+    assert (Hne : l :: r <> []) by discriminate. specialize (Hpar Hne).
+    destruct Hq as (_ & Hmax & _ & Hwf & _).
+    pose proof (Forall_inv Hmax) as Hl. pose proof (Forall_inv Hwf) as Hwl. cbv beta in Hl.
+    destruct Hwl as (_ & Hl0 & _).
+    split; [|split; [lia|]].
+    + rewrite Z.even_add, Hpar. change (Z.even 2) with true. destruct isput; reflexivity.
+    + revert Hmax. apply Forall_impl. intros a Ha. lia.
+Qed.
+
+Theorem enqueue_next_inv isput maxid sorted key leads reqs mk_lead mk_reqs n first leads' reqs' :
+  queue_inv isput maxid leads reqs -> (leads <> [] -> Z.even maxid = isput) ->
+  Z.even first = isput -> 0 <= first -> 0 < n ->
+  (forall off, l_id (mk_lead off) = next_id (Zlen leads) maxid first /\
+               l_nonlead_off (mk_lead off) = off /\
+               l_nonlead_num (mk_lead off) = n /\ l_to_free (mk_lead off) = false) ->
+  (forall off lo, Forall (fun q => areq_wf (mkareq q (mk_lead off) 0 0)) (mk_reqs lo) /\
+                  flat_map (fun q => areq_pairs (mkareq q (mk_lead off) 0 0)) (mk_reqs lo) =
+                    lead_pairs (mk_lead off) /\
+                  Forall (fun q => r_lead_off q = lo) (mk_reqs lo) /\ Zlen (mk_reqs lo) = n) ->
+  enqueue sorted key leads reqs mk_lead mk_reqs n = (leads', reqs') ->
+  Z.even (next_id (Zlen leads) maxid first) = isput /\ 0 <= next_id (Zlen leads) maxid first /\
+  queue_inv isput (next_id (Zlen leads) maxid first) leads' reqs' /\
+  exists kept shifted off, leads = kept ++ shifted /\ (sorted = false -> shifted = []) /\
+                           leads' = kept ++ mk_lead off :: shift_leads n shifted.
+Proof.
+  intros Hq Hpar Hf H0 Hn Hml Hmr He.
+  destruct (next_id_fresh _ _ _ _ _ Hq Hpar Hf H0) as (Hev & Hid & Hfresh).
+  split; [exact Hev|]. split; [exact Hid|].
+  exact (enqueue_inv _ _ _ _ _ _ _ _ _ _ _ _ Hq Hfresh Hev Hid Hn Hml Hmr He).
+Qed.
+
+(* what a successful post does to the state: newl enters one lead queue (kept ++ newl :: shifted),
+   the leads behind it only get their nonlead_off moved; the other queue is untouched *)
+Definition posted_into (isput : bool) (st st' : nbstate) (newl : lead) : Prop :=
+  exists kept shifted,
+    if isput
+    then put_lead st = kept ++ shifted /\
+         put_lead st' = kept ++ newl :: shift_leads (l_nonlead_num newl) shifted /\
+         get_lead st' = get_lead st /\ get_reqs st' = get_reqs st /\
+         maxPutID st' = l_id newl /\ maxGetID st' = maxGetID st
+    else get_lead st = kept ++ shifted /\
+         get_lead st' = kept ++ newl :: shift_leads (l_nonlead_num newl) shifted /\
+         put_lead st' = put_lead st /\ put_reqs st' = put_reqs st /\
+         maxGetID st' = l_id newl /\ maxPutID st' = maxPutID st.
+
+Lemma Zlen_le_zsum_map {A} (f : A -> Z) l : Forall (fun p => 1 <= f p) l -> Zlen l <= zsum (map f l).
+Proof.
+  induction l as [|x l IH]; intros H; cbn [map zsum].
+  - rewrite Zlen_nil. lia.
+  - inversion H as [|? ? Hx Hl]; subst. specialize (IH Hl). rewrite Proofs_Disk.Zlen_cons. lia.
+Qed.
+
+Lemma varn_nreqs_pos g parts :
+  postn_ok g parts ->
+  zsum (map (fun p => zprod (part_count (fst p) (snd p)))
+            (filter (fun p => negb (zprod (part_count (fst p) (snd p)) =? 0)) parts)) * g_xsz g <> 0 ->
+  0 < zsum (map (fun p => if g_isrec g then hd 1 (part_count (fst p) (snd p)) else 1)
+                (filter (fun p => negb (zprod (part_count (fst p) (snd p)) =? 0)) parts)).
+Proof.
+  intros (_ & _ & _ & Hparts) Hne.
+  set (nz := filter (fun p => negb (zprod (part_count (fst p) (snd p)) =? 0)) parts) in *.
+  assert (Hnz : nz <> []) by (intros E; rewrite E in Hne; cbn [map zsum] in Hne; lia).
+  apply Zlen_pos_not_nil in Hnz.
+  enough (Zlen nz <= zsum (map (fun p => if g_isrec g then hd 1 (part_count (fst p) (snd p)) else 1) nz)) by lia.
+  apply Zlen_le_zsum_map. apply Forall_forall. intros p Hp.
+  unfold nz in Hp. apply filter_In in Hp. destruct Hp as (Hin & Hz).
+  destruct (g_isrec g); [|lia].
+  rewrite Forall_forall in Hparts. specialize (Hparts p Hin).
+  apply req_ok_count_nonneg in Hparts.
+  assert (Hzp : zprod (part_count (fst p) (snd p)) <> 0) by lia.
+  pose proof (zprod_nonzero_pos _ Hparts Hzp) as Hpos.
+  destruct (part_count (fst p) (snd p)) as [|c cs]; cbn [hd]; [lia|].
+  inversion Hpos; subst. assumption.
+Qed.
+
+Section WithGeometry.
+(* proved in Proofs_NbSegs.v (the geometric content of record splitting / varn splitting) *)
+Hypothesis post_varm_reqs_ok : forall g start count stride xaddr lo l,
+  post_ok g start count stride -> 0 < zprod count * g_xsz g ->
+  l_geom l = g -> l_stride l = stride_eff stride -> l_xaddr l = xaddr ->
+  l_orig l = [(start, count, match stride with Some t => t | None => ones_like count end)] ->
+  let reqs := (if g_isrec g
+               then rec_split lo start count (match stride_eff stride with Some t => hd 1 t | None => 1 end)
+                              (hd 1 count) (zprod count / hd 1 count) xaddr (g_xsz g)
+               else [mkreq lo start count (zprod count) xaddr]) in
+  Forall (fun q => areq_wf (mkareq q l 0 0)) reqs /\
+  flat_map (fun q => areq_pairs (mkareq q l 0 0)) reqs = lead_pairs l /\
+  Forall (fun q => r_lead_off q = lo) reqs /\
+  Zlen reqs = (if g_isrec g then hd 1 count else 1) /\ 0 < Zlen reqs.
+Hypothesis post_varn_reqs_ok : forall g parts xaddr lo l,
+  postn_ok g parts -> l_geom l = g -> l_stride l = None -> l_xaddr l = xaddr ->
+  l_orig l = map (fun p => (fst p, part_count (fst p) (snd p), ones_like (fst p)))
+                 (filter (fun p => negb (zprod (part_count (fst p) (snd p)) =? 0)) parts) ->
+  let reqs := varn_reqs (g_isrec g) lo (g_xsz g) parts xaddr in
+  Forall (fun q => areq_wf (mkareq q l 0 0)) reqs /\
+  flat_map (fun q => areq_pairs (mkareq q l 0 0)) reqs = lead_pairs l /\
+  Forall (fun q => r_lead_off q = lo) reqs /\
+  Zlen reqs = zsum (map (fun p => if g_isrec g then hd 1 (part_count (fst p) (snd p)) else 1)
+                        (filter (fun p => negb (zprod (part_count (fst p) (snd p)) =? 0)) parts)).
+
+Ltac name_enqueue Eq pl pr :=
+  match goal with
+  | Hp : context [enqueue ?a ?b ?c ?d ?e ?f ?h] |- _ =>
+      destruct (enqueue a b c d e f h) as [pl pr] eqn:Eq
+  end.
+
+Lemma post_varm_spec st k g start count stride xaddr0 data sw tag :
+  nb_inv st -> maxid_ok st -> post_ok g start count stride ->
+  forall st' id rc, post_varm st k g start count stride xaddr0 data sw tag = (st', id, rc) ->
+  (st' = st /\ id = NC_REQ_NULL) \/
+  (rc = NC_NOERR /\ 0 <= id /\ Z.even id = k_isput k /\ nb_inv st' /\ maxid_ok st' /\
+   exists newl, l_id newl = id /\ l_tag newl = tag /\ l_geom newl = g /\
+                l_stride newl = stride_eff stride /\
+                l_orig newl = [(start, count, match stride with Some t => t | None => ones_like count end)] /\
+                l_to_free newl = false /\ l_nelems newl = zprod count /\
+                posted_into (k_isput k) st st' newl).
+Proof.
+  intros Hinv Hmax Hpost st' id rc Hp. unfold post_varm in Hp.
+  match type of Hp with (match ?c with true => _ | false => _ end) = _ => destruct c eqn:Ek end.
+  { injection Hp as <- <- <-. left. split; reflexivity. }
+  cbv zeta in Hp.
+  destruct (zprod count * g_xsz g =? 0) eqn:Enb.
+  { injection Hp as <- <- <-. left. split; reflexivity. }
+  destruct (bput_alloc st k (zprod count * g_xsz g) xaddr0) as [[[rc0 ab] aidx] xaddr] eqn:Eb.
+  destruct (negb (rc0 =? NC_NOERR)) eqn:Erc.
+  { injection Hp as <- <- <-. left. split; reflexivity. }
+  right.
+  assert (Hpos : 0 < zprod count * g_xsz g).
+  { destruct Hpost as ((Hx & _) & _ & Hreq). apply req_ok_count_nonneg in Hreq.
+    apply zprod_nonneg in Hreq. apply Z.eqb_neq in Enb. nia. }
+  destruct Hinv as (Hput & Hget). destruct Hmax as (Hmp & Hmg).
+  destruct (k_isput k) eqn:Ekp.
+  - name_enqueue Eq pl pr. injection Hp as <- <- <-.
+    match type of Eq with enqueue _ _ _ _ ?ml ?mr ?n = _ =>
+      set (ML := ml) in *; set (MR := mr) in *; set (NN := n) in * end.
+    assert (Hmr : forall off lo,
+               Forall (fun q => areq_wf (mkareq q (ML off) 0 0)) (MR lo) /\
+               flat_map (fun q => areq_pairs (mkareq q (ML off) 0 0)) (MR lo) = lead_pairs (ML off) /\
+               Forall (fun q => r_lead_off q = lo) (MR lo) /\ Zlen (MR lo) = NN /\ 0 < Zlen (MR lo)).
+    { intros off lo.
+      exact (post_varm_reqs_ok g start count stride xaddr lo (ML off) Hpost Hpos
+                               eq_refl eq_refl eq_refl eq_refl). }
+    assert (Hn : 0 < NN) by (destruct (Hmr 0 0) as (_ & _ & _ & H4 & H5); lia).
+    assert (Hmr' : forall off lo,
+               Forall (fun q => areq_wf (mkareq q (ML off) 0 0)) (MR lo) /\
+               flat_map (fun q => areq_pairs (mkareq q (ML off) 0 0)) (MR lo) = lead_pairs (ML off) /\
+               Forall (fun q => r_lead_off q = lo) (MR lo) /\ Zlen (MR lo) = NN).
+    { intros off lo. destruct (Hmr off lo) as (H1 & H2 & H3 & H4 & _). repeat split; assumption. }
+    assert (Hml : forall off, l_id (ML off) = next_id (Zlen (put_lead st)) (maxPutID st) 0 /\
+                              l_nonlead_off (ML off) = off /\ l_nonlead_num (ML off) = NN /\
+                              l_to_free (ML off) = false).
+    { intros off. split; [reflexivity|]. split; [reflexivity|]. split; reflexivity. }
+    destruct (enqueue_next_inv true _ _ _ _ _ _ _ _ 0 _ _ Hput Hmp eq_refl (Z.le_refl 0) Hn Hml Hmr' Eq)
+      as (Hev & Hid & Hq & kept & shifted & off & El & _ & El').
+    split; [reflexivity|]. split; [exact Hid|]. split; [exact Hev|].
+    split; [split; [exact Hq|exact Hget]|].
+    split; [split; [intros _; exact Hev|exact Hmg]|].
+    exists (ML off). split; [reflexivity|]. split; [reflexivity|]. split; [reflexivity|].
+    split; [reflexivity|]. split; [reflexivity|]. split; [reflexivity|]. split; [reflexivity|].
+    exists kept, shifted. split; [exact El|]. split; [exact El'|].
+    split; [reflexivity|]. split; [reflexivity|]. split; reflexivity.
+  - name_enqueue Eq pl pr. injection Hp as <- <- <-.
+    match type of Eq with enqueue _ _ _ _ ?ml ?mr ?n = _ =>
+      set (ML := ml) in *; set (MR := mr) in *; set (NN := n) in * end.
+    assert (Hmr : forall off lo,
+               Forall (fun q => areq_wf (mkareq q (ML off) 0 0)) (MR lo) /\
+               flat_map (fun q => areq_pairs (mkareq q (ML off) 0 0)) (MR lo) = lead_pairs (ML off) /\
+               Forall (fun q => r_lead_off q = lo) (MR lo) /\ Zlen (MR lo) = NN /\ 0 < Zlen (MR lo)).
+    { intros off lo.
+      exact (post_varm_reqs_ok g start count stride xaddr lo (ML off) Hpost Hpos
+                               eq_refl eq_refl eq_refl eq_refl). }
+    assert (Hn : 0 < NN) by (destruct (Hmr 0 0) as (_ & _ & _ & H4 & H5); lia).
+    assert (Hmr' : forall off lo,
+               Forall (fun q => areq_wf (mkareq q (ML off) 0 0)) (MR lo) /\
+               flat_map (fun q => areq_pairs (mkareq q (ML off) 0 0)) (MR lo) = lead_pairs (ML off) /\
+               Forall (fun q => r_lead_off q = lo) (MR lo) /\ Zlen (MR lo) = NN).
+    { intros off lo. destruct (Hmr off lo) as (H1 & H2 & H3 & H4 & _). repeat split; assumption. }
+    assert (Hml : forall off, l_id (ML off) = next_id (Zlen (get_lead st)) (maxGetID st) 1 /\
+                              l_nonlead_off (ML off) = off /\ l_nonlead_num (ML off) = NN /\
+                              l_to_free (ML off) = false).
+    { intros off. split; [reflexivity|]. split; [reflexivity|]. split; reflexivity. }
+    destruct (enqueue_next_inv false _ _ _ _ _ _ _ _ 1 _ _ Hget Hmg eq_refl Z.le_0_1 Hn Hml Hmr' Eq)
+      as (Hev & Hid & Hq & kept & shifted & off & El & _ & El').
+    split; [reflexivity|]. split; [exact Hid|]. split; [exact Hev|].
+    split; [split; [exact Hput|exact Hq]|].
+    split; [split; [exact Hmp|intros _; exact Hev]|].
+    exists (ML off). split; [reflexivity|]. split; [reflexivity|]. split; [reflexivity|].
+    split; [reflexivity|]. split; [reflexivity|]. split; [reflexivity|]. split; [reflexivity|].
+    exists kept, shifted. split; [exact El|]. split; [exact El'|].
+    split; [reflexivity|]. split; [reflexivity|]. split; reflexivity.
+Qed.
